@@ -17,6 +17,7 @@ static const char *const FN[] = {"X stops reading (send window 0)", "one writev 
 
 static int X, H1, H2;
 static bool xrouted_sent;
+static char x_request_rid[128];
 static char bigval[600];
 static char what[300];
 
@@ -47,6 +48,7 @@ static const struct hstep HIST[] = {
     {1, "{\"id\":\"s5\",\"method\":\"add\",\"params\":{\"path\":\"h1s\",\"value\":\"e%s\"}}", 0, false},
     {2, "{\"id\":\"s6\",\"method\":\"change\",\"params\":{\"path\":\"h2s\",\"value\":\"f%s\"}}", 0, false},
     {2, "{\"id\":\"s7\",\"method\":\"change\",\"params\":{\"path\":\"h2n\",\"value\":\"g%s\"}}", 0, false},
+    {1, "@reply-to-x", 0, false}, /* H1 answers the request X has had in flight since the set-up (only when X is a caller) */
     {1, "{\"id\":\"s8\",\"method\":\"fetch\",\"params\":{\"id\":\"second\",\"path\":{\"startsWith\":\"h2\"}}}", 0, false},
     {2, "{\"id\":\"s9\",\"method\":\"remove\",\"params\":{\"path\":\"h2n\"}}", 0, false},
     {1, "{\"id\":\"s10\",\"method\":\"get\",\"params\":{\"path\":{\"startsWith\":\"h\"}}}", 0, false},
@@ -156,8 +158,9 @@ static bool equivalent(const char *mine, const char *other, char *diff, size_t d
 	return ok;
 }
 
-static void setup(bool xowner)
+static void setup(int xrole)
 {
+	bool xowner = xrole == 1;
 	X = jx_open(xp_param("xws", 0) ? CL_WS : CL_RAW);
 	jx_sendf(X, "{\"id\":\"x0\",\"method\":\"fetch\",\"params\":{\"id\":\"xf\"}}");
 	jx_settle();
@@ -175,6 +178,22 @@ static void setup(bool xowner)
 	jx_sendf(H1, "{\"id\":\"i4\",\"method\":\"add\",\"params\":{\"path\":\"h1m\"}}");
 	jx_sendf(H2, "{\"id\":\"i5\",\"method\":\"add\",\"params\":{\"path\":\"h2s\",\"value\":0}}");
 	jx_settle();
+	x_request_rid[0] = 0;
+	if (xrole == 2) {
+		/* X is a caller: its request to H1's method stays unanswered until H1 replies in the middle of the history */
+		jx_sendf(X, "{\"id\":\"xc\",\"method\":\"call\",\"params\":{\"path\":\"h1m\",\"args\":[\"from-x\"],\"timeout\":30}}");
+		jx_settle();
+		for (int i = 0; i < clients[H1].nmsgs; i++) {
+			struct cl_msg *m = &clients[H1].msgs[i];
+			if (m->cls == MC_ROUTED && !m->consumed && cJSON_IsString(msg_id(m))) {
+				snprintf(x_request_rid, sizeof(x_request_rid), "%s", msg_id(m)->valuestring);
+				m->consumed = true;
+			}
+		}
+		if (x_request_rid[0] == 0) {
+			fail11("setup-failed", "X's call was not routed to H1");
+		}
+	}
 }
 
 static void apply_fault(int f)
@@ -270,7 +289,8 @@ static void finish_and_compare(int twin, const char *keyctx)
 static void run_history(void)
 {
 	int f = xp_choose(NFAULTS, XP_SCENARIO, "fault");
-	int xowner = xp_choose(2, XP_SCENARIO, "x-owns-elements");
+	int xrole = xp_choose(3, XP_SCENARIO, "x-role"); /* 0 subscriber only, 1 also owner of a state and a method, 2 also caller with a request in flight to H1 */
+	int xowner = xrole == 1;
 	int pos = xp_choose(NHIST + 1, XP_SCENARIO, "fault-position");
 	int second = xp_choose(2, XP_DEV, "second-fault"); /* deviation: the window opens again / X is reset later on */
 	int second_pos = second ? pos + 1 + xp_choose(NHIST - pos > 0 ? NHIST - pos : 1, XP_SCENARIO, "second-fault-position") : -1;
@@ -280,8 +300,8 @@ static void run_history(void)
 	int twin = xp_twin_begin();
 	struct sim_opts o = {0};
 	jx_boot(&o);
-	setup(xowner);
-	snprintf(what, sizeof(what), "fault '%s' before step %d of the history (X %s)%s", FN[f], pos, xowner ? "owns a state and a method" : "only subscribes", second ? ", later X's window opens / X is reset" : "");
+	setup(xrole);
+	snprintf(what, sizeof(what), "fault '%s' before step %d of the history (X %s)%s", FN[f], pos, xrole == 1 ? "owns a state and a method" : xrole == 2 ? "has a request in flight to H1" : "only subscribes", second ? ", later X's window opens / X is reset" : "");
 	int prefill = (int)xp_param("prefill", 0);
 	xrouted_sent = xowner;
 	for (int i = 0; i <= NHIST; i++) {
@@ -311,7 +331,14 @@ static void run_history(void)
 			continue;
 		}
 		char req[1400];
-		snprintf(req, sizeof(req), st->req, bigval);
+		if (st->req[0] == '@') {
+			if (x_request_rid[0] == 0) {
+				continue;
+			}
+			snprintf(req, sizeof(req), "{\"id\":\"%s\",\"result\":\"late-for-x-%s\"}", x_request_rid, bigval);
+		} else {
+			snprintf(req, sizeof(req), st->req, bigval);
+		}
 		cl_send_text(st->who == 1 ? H1 : H2, req);
 		jx_settle();
 		if (st->reply_by == 1) {
@@ -330,7 +357,7 @@ static void run_history(void)
 	}
 	char ctx[60];
 	snprintf(ctx, sizeof(ctx), "%s", f == F_STALL ? "x-stalled" : (f == F_WRITEFAIL || f == F_RESET_WRITE) ? "x-send-fails" : f == F_GARBAGE || f == F_OVERSIZE ? "x-garbage" : "x-reset");
-	xp_state(hash_mix((uint64_t)f * 1000 + (uint64_t)pos * 10 + (uint64_t)xowner, (uint64_t)(second_pos + 1)));
+	xp_state(hash_mix((uint64_t)f * 1000 + (uint64_t)pos * 10 + (uint64_t)xrole, (uint64_t)(second_pos + 1)));
 	finish_and_compare(twin, ctx);
 }
 
@@ -350,7 +377,7 @@ static void run_accept(void)
 	bigval[0] = 0;
 	struct sim_opts o = {0};
 	jx_boot(&o);
-	setup(true);
+	setup(1);
 	xrouted_sent = true;
 	snprintf(what, sizeof(what), "a connection attempt on listener %d whose %s fails with errno %d, before step %d", listener, ACCF[f].call, ACCF[f].err, pos);
 	for (int i = 0; i <= NHIST; i++) {
@@ -370,6 +397,9 @@ static void run_accept(void)
 		}
 		const struct hstep *st = &HIST[i];
 		char req[1400];
+		if (st->req[0] == '@') {
+			continue;
+		}
 		snprintf(req, sizeof(req), st->req, bigval);
 		cl_send_text(st->who == 1 ? H1 : H2, req);
 		jx_settle();
@@ -414,6 +444,6 @@ const struct driver drv_c11 = {
     .name = "c11",
     .property = "C11",
     .run = run,
-    .rule = "section 0: a 15-step history of healthy traffic between H1 (raw) and H2 (websocket) — change, add, remove, re-add, routed set/call with owner replies, a second fetch, get, requests routed to X — x 7 faults of the peer X that subscribed first (stops reading, one writev fails, reset seen by writev / epoll / read, invalid JSON, oversize length) x every position of the history x {X only subscribes, X also owns elements}; deviation budget 1: a second event later on (window opens again / X is reset); section 1: a fourth party's connection attempt on each of the 3 listeners with accept failing (ECONNABORTED, EMFILE, EINTR, ENFILE, ENOBUFS, ENOMEM, EPROTO) or fcntl / setsockopt / getsockname failing, at every position; oracle: H1's, H2's and a fresh peer's decoded streams equal the healthy twin's line by line, except that a response may be replaced by an error response with the same id; notifications about X's own elements are ignored; nobody but X is dropped; the listener still accepts; resources return to baseline",
+    .rule = "section 0: a 15-step history of healthy traffic between H1 (raw) and H2 (websocket) — change, add, remove, re-add, routed set/call with owner replies, a second fetch, get, requests routed to X — x 7 faults of the peer X that subscribed first (stops reading, one writev fails, reset seen by writev / epoll / read, invalid JSON, oversize length) x every position of the history x {X only subscribes, X also owns elements, X also has a routed request in flight to H1 that H1 answers in the middle of the history}; deviation budget 1: a second event later on (window opens again / X is reset); section 1: a fourth party's connection attempt on each of the 3 listeners with accept failing (ECONNABORTED, EMFILE, EINTR, ENFILE, ENOBUFS, ENOMEM, EPROTO) or fcntl / setsockopt / getsockname failing, at every position; oracle: H1's, H2's and a fresh peer's decoded streams equal the healthy twin's line by line, except that a response may be replaced by an error response with the same id; notifications about X's own elements are ignored; nobody but X is dropped; the listener still accepts; resources return to baseline",
     .assumptions = "param big = size of the values (with the 5120-byte write buffer of the default build the buffer of a stalled peer only fills with large values; the tiny build has a 96-byte buffer)|an error response instead of a success response is tolerated for every request of a healthy peer as long as all other output (notifications, get results) is identical, i.e. the request took effect",
 };
